@@ -112,6 +112,7 @@ func loadProg(repo string) (*Prog, error) {
 	for _, s := range specs {
 		p.cs.LoadContractFile(s, "", true)
 	}
+	p.propagateIfaceContracts(prog)
 	return p, nil
 }
 
@@ -418,6 +419,9 @@ func solveAll(res *FnResult, timeout, candTimeout time.Duration) {
 					o.Result = Solve(script, tmo)
 				}
 				o.script = script
+				if d := os.Getenv("GOVC_DUMP_DIR"); d != "" {
+					os.WriteFile(filepath.Join(d, strings.NewReplacer("/", "_", " ", "_", ">", "_").Replace(o.ID)+".smt2"), []byte(script), 0o644)
+				}
 			}(o)
 		}
 		wg.Wait()
